@@ -6,7 +6,7 @@ build directory.  A changed .cpp removes its object file, a changed header / cma
 removes all object files, then ninja is run; so an edit that preserved mtimes is still
 picked up.  Nothing under /tmp is needed.
 """
-import hashlib, json, os, shutil, subprocess, sys, time
+import hashlib, json, os, shutil, subprocess, sys, threading, time
 from concurrent.futures import ThreadPoolExecutor
 
 VERIF = os.path.dirname(os.path.dirname(os.path.abspath(__file__)))
@@ -172,6 +172,36 @@ def harness_headers_hash():
     return h.hexdigest()
 
 
+def _cache_put(obj, cpath):
+    try:
+        tmp = cpath + ".%d.tmp" % os.getpid()
+        shutil.copyfile(obj, tmp)
+        os.replace(tmp, cpath)
+    except Exception:
+        pass
+
+
+# one pool of compiler slots for the whole process (flavours are built concurrently), and no new compiler is started while the machine is
+# short of memory: an ASan compile of one of the Eigen-heavy drivers needs 1.5-2.5 GB
+_CC_SLOTS = threading.BoundedSemaphore(int(os.environ.get("VERIF_JOBS", "16")))
+
+
+def _mem_available_gb():
+    try:
+        for line in open("/proc/meminfo"):
+            if line.startswith("MemAvailable:"):
+                return int(line.split()[1]) / 1048576.0
+    except Exception:
+        pass
+    return 1e9
+
+
+def _wait_for_memory(need_gb=4.0, max_wait=900):
+    t0 = time.time()
+    while _mem_available_gb() < need_gb and time.time() - t0 < max_wait:
+        time.sleep(3.0)
+
+
 def build_harness(flavour):
     """Compile and link the harness binary `vh` against the flavour's library. Returns path to vh."""
     spec = FLAVOURS[flavour]
@@ -197,17 +227,35 @@ def build_harness(flavour):
             stamps = {}
     jobs = []
     objs = []
+    # object cache shared by all build roots (the main one and the scratch ones used for seeded changes): an object is reused only if
+    # its source, every harness header, the repository's include tree, the generated headers and the flags (paths normalised) are identical
+    gen = tree_hashes(bdir, ["include"]) if os.path.isdir(os.path.join(bdir, "include")) else {}
+    norm_flags = " ".join(flags).replace(repo_dir(), "$REPO").replace(bdir, "$BDIR")
+    cache_dir = os.path.join(VERIF, "_build", "objcache")
+    os.makedirs(cache_dir, exist_ok=True)
+    ckeys = {}
     for s in harness_sources():
         o = os.path.join(hdir, os.path.basename(s)[:-4] + ".o")
         objs.append(o)
         key = "|".join([_sha(s), hh, lib_manifest, " ".join(flags)])
+        ckeys[o] = os.path.join(cache_dir, hashlib.sha1(json.dumps([_sha(s), hh, inc, gen, spec, norm_flags], sort_keys=True).encode()).hexdigest() + ".o")
         if stamps.get(o) != key or not os.path.exists(o):
+            if os.path.exists(ckeys[o]):
+                shutil.copyfile(ckeys[o], o)
+                stamps[o] = key
+                json.dump(stamps, open(stamp_path, "w"))
+                continue
             jobs.append((s, o, key))
+        elif not os.path.exists(ckeys[o]):
+            _cache_put(o, ckeys[o])
+    relink = any(not os.path.exists(os.path.join(hdir, "vh")) or os.path.getmtime(o) > os.path.getmtime(os.path.join(hdir, "vh")) for o in objs if os.path.exists(o))
     logfile = os.path.join(hdir, "build.log")
 
     def cc(job):
         s, o, key = job
-        rc, out, dt = run([spec["cxx"]] + flags + ["-c", s, "-o", o], logfile=logfile)
+        with _CC_SLOTS:
+            _wait_for_memory()
+            rc, out, dt = run([spec["cxx"]] + flags + ["-c", s, "-o", o], logfile=logfile)
         return rc, out, job
 
     failed = []
@@ -219,6 +267,7 @@ def build_harness(flavour):
                     failed.append((job[0], out))
                 else:
                     stamps[job[1]] = job[2]
+                    _cache_put(job[1], ckeys[job[1]])
         if failed:
             # a compiler killed by the OOM killer on a loaded machine is not a verdict: retry the failed objects with little parallelism
             retry = [j for j in jobs if any(j[0] == f for f, _ in failed)]
@@ -229,13 +278,14 @@ def build_harness(flavour):
                         failed.append((job[0], out))
                     else:
                         stamps[job[1]] = job[2]
+                        _cache_put(job[1], ckeys[job[1]])
         json.dump(stamps, open(stamp_path, "w"))
         log("%s: %d harness objects compiled in %.0fs" % (flavour, len(jobs), time.time() - t0))
     if failed:
         raise RuntimeError("harness compile failed (%s):\n%s" % (flavour, "\n".join(f + "\n" + o[-3000:] for f, o in failed)))
     vh = os.path.join(hdir, "vh")
     lib_stamp = _sha(os.path.join(bdir, ".verif_srchash.json"))
-    if jobs or not os.path.exists(vh) or stamps.get("__lib__") != lib_stamp:
+    if jobs or relink or not os.path.exists(vh) or stamps.get("__lib__") != lib_stamp:
         link = [spec["cxx"]] + [f for f in spec["flags"].split() if f.startswith(("-fsanitize", "-fopenmp", "-g", "-O"))] + \
                objs + ["-o", vh, "-L" + bdir, "-lpomerol", "-Wl,-rpath," + bdir,
                        "-lboost_mpi", "-lboost_serialization"] + MPI_LINK
